@@ -1,123 +1,491 @@
 (** Evaluator of the C09 correspondence stream.  A case is one request served
-    by the real decision or proxy handler stack: the configured trusted_proxies
-    entries and the peer with the net package's parse results, the connection
-    and request line, the header list as parsed by net/http, url.Parse's answer
-    on the X-Forwarded-Uri value, and the observation (status, matched rule,
-    echoed view, what the upstream received).
+    by the real decision or proxy handler stack, as the operator and the client
+    supplied it: the mode, the two configured trusted_proxies options (strings as
+    written to the configuration file), RemoteAddr, the request line, the header
+    lines as sent; the answers of the net package, of net/http's parser and of
+    url.Parse on exactly the strings of the case; and the observation (status,
+    matched rule, echoed view with the complete header map, the forwarding
+    headers the upstream received, and the two whole-observation results of the
+    driver: sinks in which a piece of a forwarded value surfaced, sinks that
+    differ from the same request without the seven headers).
 
-    [v_corr]: the model ([serve] with the loader of the tree under test) predicts
-    the observation;  [v_prop]: the observation is what the specification
-    demands ([listedb] + [spec_view_trusted] / [spec_view_untrusted] /
-    [spec_upstream_untrusted]);  guard 1 = C09-F1. *)
-From HV Require Export Base.Prelude C09.Model C09.Proofs.
+    [v_corr]: the model ([handle] with the loader of the tree under test)
+    predicts the projections the property talks about.
+    [v_prop]: a predicate written from the specification on the observation
+    alone: is the peer listed ([covers_str] over the mode's own option)?  If
+    not: the view is the connection and request line, no header named like one
+    of the seven is visible, nothing surfaced anywhere, nothing differs from the
+    request without them.  If so: every component is its header's value when
+    that is present and non-empty, else the actual request; the client list is
+    the announced one, as a class.  In both cases the matched rule fits the
+    view shown.  guard 1 = C09-F1 (pinned loader only). *)
+From HV Require Export Base.Prelude C09.Model C09.Proofs C09.Request.
 Open Scope string_scope.
 
 Record oview := {
   ov_method : string; ov_scheme : string; ov_host : string; ov_rawpath : string; ov_query : string;
   ov_ips : list string;
-  ov_hdrs : list (string * string);   (* the seven names visible through Headers(): name, values joined by "," *)
-  ov_ok : bool                        (* Path = PathUnescape(RawPath), Header(n) = Headers()[n], canonical keys only *)
+  ov_hdrs : list (string * string);   (* the complete Headers() map: key, values joined by "," *)
+  ov_ok : bool                        (* Path = PathUnescape(RawPath), URL.String() fits, Header(n) = Headers()[n] *)
 }.
 
-Record oup := { ou_method : string; ou_uri : string; ou_hdrs : list (string * list string) }.
+Record oup := { ou_method : string; ou_hdrs : list (string * list string) }.
 
-Record obs := { o_status : Z; o_rule : string; o_view : option oview; o_up : option oup }.
+Record obs := { o_status : Z; o_rule : string; o_view : option oview; o_up : option oup;
+                o_leaks : list string; o_pair : list string }.
 
 Record case := {
-  k_proxy : bool;
-  k_entries : list entry;
-  k_peer : ip;
-  k_conn : conn;
-  k_hdrs : hdrs;
+  k_mode : mode;
+  k_cfg : config;
+  k_loaded : bool;                                          (* the loaded configuration carries the options as written *)
+  k_net : list (string * (ip * option (ip * list N)));      (* net.ParseIP / net.ParseCIDR on each string *)
+  k_split : option string;                                  (* net.SplitHostPort (RemoteAddr) *)
+  k_req : reqline;
+  k_raw : raw_hdrs;
+  k_parsed : hdrs;                                          (* net/http's parse of the header lines *)
   k_uri : option (string * string);
   k_obs : obs
 }.
 
-(** the rule set of the harness (harness/c09/c09_test.go c09Rules): literal
-    paths with one constraint each, backtracking to the catch-all "/**" *)
-Definition rule_of (v : view) : option string :=
-  let p := v_rawpath v in
-  if String.eqb p "/pub/a" && String.eqb (v_method v) "GET" then Some "pub"
-  else if String.eqb p "/pst/a" && String.eqb (v_method v) "POST" then Some "pst"
-  else if String.eqb p "/sec/a" && String.eqb (v_scheme v) "https" then Some "sec"
-  else if String.eqb p "/hst/a" && String.eqb (v_host v) "a.example.com" then Some "hst"
+(* ------------------------------------------------------------------ the oracles of a case *)
+
+Definition o_parse_ip (c : case) : string -> ip := tbl_ip (k_net c).
+Definition o_parse_cidr (c : case) : string -> option (ip * list N) := tbl_cidr (k_net c).
+Definition o_split (c : case) : string -> option string := one_split (r_remote (k_req c)) (k_split c).
+(** url.Parse was asked about exactly one string: the first X-Forwarded-Uri value *)
+Definition o_parse_uri (c : case) : string -> option (string * string) :=
+  fun s => match hdr_ci XFU (k_raw c) with
+           | Some v => if String.eqb s v then k_uri c else None
+           | None => None
+           end.
+
+(** the well-formedness the theorems assume of the net package's answers ([net_ok], by
+    [Request.table_net_ok]), checked on the answers of the case; and every string the model asks about
+    has its answer in the case *)
+Definition asked (c : case) (s : string) : bool :=
+  match assoc s (k_net c) with Some _ => true | None => false end.
+
+Definition oracles_ok (c : case) : bool :=
+  forallb net_row_ok (k_net c) && split_answer_ok (k_split c) &&
+  forallb (asked c) (configured (k_mode c) (k_cfg c)) &&
+  asked c (peer_host (o_split c) (r_remote (k_req c))) && asked c "".
+
+(** ... so the theorems of Properties/C09.v apply to the oracles of every case that passes the check *)
+Lemma oracles_ok_net_ok c : oracles_ok c = true -> net_ok (o_parse_ip c) (o_parse_cidr c) (o_split c).
+Proof.
+  unfold oracles_ok. intro H. repeat (apply andb_true_iff in H as [H ?]).
+  apply table_net_ok; assumption.
+Qed.
+
+(** the model of net/http's header parsing agrees with net/http on the lines of the case *)
+Definition same_values (a b : hdrs) (k : string) : bool := list_eqb String.eqb (values k a) (values k b).
+Definition headers_ok (c : case) : bool :=
+  let m := parse_headers (k_raw c) in
+  forallb (fun kv => same_values m (k_parsed c) (fst kv)) m &&
+  forallb (fun kv => same_values m (k_parsed c) (fst kv)) (k_parsed c).
+
+(* ------------------------------------------------------------------ the rule set of the harness *)
+
+(** harness/c09/c09_test.go c09Rules: literal paths with one constraint each, backtracking to the
+    catch-all "/**"; "/" has its own rule.  [ci]: compare method, scheme and host without regard to
+    case (the property does not say which it is: both answers are accepted) *)
+Definition eqs (ci : bool) (a b : string) : bool := if ci then eq_ci a b else String.eqb a b.
+
+Definition rule_of (ci : bool) (method scheme host rawpath : string) : option string :=
+  let p := rawpath in
+  if String.eqb p "/pub/a" && eqs ci method "GET" then Some "pub"
+  else if String.eqb p "/pst/a" && eqs ci method "POST" then Some "pst"
+  else if String.eqb p "/sec/a" && eqs ci scheme "https" then Some "sec"
+  else if String.eqb p "/hst/a" && eqs ci host "a.example.com" then Some "hst"
   else if String.eqb p "/any/a" then Some "any"
+  else if String.eqb p "/" then Some "root"
   else match p with
        | String "/" (String _ _) => Some "other"
        | _ => None
        end.
 
-Definition fwd_visible (h : hdrs) : list (string * string) :=
-  flat_map (fun n => if has n h then [(n, join "," (values n h))] else []) untrusted_header.
+Definition rule_cands (method scheme host rawpath : string) : list (option string) :=
+  [rule_of false method scheme host rawpath; rule_of true method scheme host rawpath].
 
-Definition oview_of (v : view) : oview :=
-  {| ov_method := v_method v; ov_scheme := v_scheme v; ov_host := v_host v; ov_rawpath := v_rawpath v;
-     ov_query := v_query v; ov_ips := v_ips v; ov_hdrs := fwd_visible (v_hdrs v); ov_ok := true |}.
+Definition is_some {A} (o : option A) : bool := match o with Some _ => true | None => false end.
+Definition ok2xx (s : Z) : bool := (200 <=? s)%Z && (s <? 300)%Z.
 
-Definition expected (proxy : bool) (s : served) : obs :=
-  match rule_of (s_view s) with
-  | None => {| o_status := 404; o_rule := ""; o_view := None; o_up := None |}
-  | Some id =>
-    {| o_status := 200; o_rule := id; o_view := Some (oview_of (s_view s));
-       o_up := if proxy then Some {| ou_method := s_up_method s; ou_uri := s_up_uri s; ou_hdrs := s_up_fwd s |}
-               else None |}
+(** the matched rule fits the view that is shown (matching used what the mechanisms see) *)
+Definition rule_fits (o : obs) : bool :=
+  match o_view o with
+  | Some v => existsb (fun c => match c with Some r => String.eqb r (o_rule o) | None => false end)
+                      (rule_cands (ov_method v) (ov_scheme v) (ov_host v) (ov_rawpath v))
+  | None => true
   end.
 
-Definition pair_eqb (a b : string * string) : bool := String.eqb (fst a) (fst b) && String.eqb (snd a) (snd b).
+(* ------------------------------------------------------------------ correspondence: the model predicts the observation *)
+
+(** Headers(): "Host" plus every header name the middleware left, values joined by "," *)
+Definition visible_ok (host : string) (h : hdrs) (seen : list (string * string)) : bool :=
+  forallb (fun kv => (String.eqb (fst kv) "Host" && String.eqb (snd kv) host) ||
+                     (has (fst kv) h && String.eqb (join "," (values (fst kv) h)) (snd kv))) seen &&
+  forallb (fun kv => is_some (assoc (fst kv) seen)) h &&
+  is_some (assoc "Host" seen).
+
+(** separators of a comma separated value do not count *)
+Definition canon_list (v : string) : string := join ", " (map trim_space (split_on "," v)).
+
+Definition up_projection (uh : hdrs) : list (string * list string) :=
+  map (fun nvs => (fst nvs, if String.eqb (fst nvs) FWD || String.eqb (fst nvs) XFF
+                            then map canon_list (snd nvs) else snd nvs))
+      (fwd_projection uh).
+
 Definition pairl_eqb (a b : string * list string) : bool :=
   String.eqb (fst a) (fst b) && list_eqb String.eqb (snd a) (snd b).
 
-Definition oview_eqb (a b : oview) : bool :=
-  String.eqb (ov_method a) (ov_method b) && String.eqb (ov_scheme a) (ov_scheme b) &&
-  String.eqb (ov_host a) (ov_host b) && String.eqb (ov_rawpath a) (ov_rawpath b) &&
-  String.eqb (ov_query a) (ov_query b) && list_eqb String.eqb (ov_ips a) (ov_ips b) &&
-  list_eqb pair_eqb (ov_hdrs a) (ov_hdrs b) && Bool.eqb (ov_ok a) (ov_ok b).
+Definition view_corr (v : view) (host : string) (ov : oview) : bool :=
+  String.eqb (ov_method ov) (v_method v) && String.eqb (ov_scheme ov) (v_scheme v) &&
+  String.eqb (ov_host ov) (v_host v) && String.eqb (ov_rawpath ov) (v_rawpath v) &&
+  String.eqb (ov_query ov) (v_query v) && list_eqb String.eqb (ov_ips ov) (v_ips v) &&
+  visible_ok host (v_hdrs v) (ov_hdrs ov) && ov_ok ov.
 
-Definition oup_eqb (a b : oup) : bool :=
-  String.eqb (ou_method a) (ou_method b) && String.eqb (ou_uri a) (ou_uri b) &&
-  list_eqb pairl_eqb (ou_hdrs a) (ou_hdrs b).
+Definition corr (impl_fixed : bool) (c : case) : bool :=
+  let s := handle (o_parse_uri c) (o_parse_ip c) (o_parse_cidr c) (o_split c) impl_fixed
+                  (k_mode c) (k_cfg c) (k_req c) (k_raw c) in
+  let v := s_view s in
+  let o := k_obs c in
+  let trusted := trusted_peer impl_fixed (map (entry_of (o_parse_ip c) (o_parse_cidr c)) (configured (k_mode c) (k_cfg c)))
+                              (o_parse_ip c (ip_from_host_port (o_split c) (r_remote (k_req c)))) in
+  let cands := rule_cands (v_method v) (v_scheme v) (v_host v) (v_rawpath v) in
+  (* a rule certainly matches: the request passes, the rule is one of the candidates, the view is echoed *)
+  (if forallb is_some cands
+   then ok2xx (o_status o) && is_some (o_view o) &&
+        existsb (fun cd => match cd with Some r => String.eqb r (o_rule o) | None => false end) cands
+   else true) &&
+  match o_view o with
+  | Some ov => view_corr v (r_host (k_req c)) ov
+  | None => true
+  end &&
+  match k_mode c, o_view o with
+  | Proxy, Some _ =>
+    match o_up o with
+    | Some u => String.eqb (ou_method u) (s_up_method s) &&
+                list_eqb pairl_eqb (ou_hdrs u) (up_projection (s_up_hdrs s))
+    | None => false
+    end
+  | Decision, _ => negb (is_some (o_up o))
+  | _, _ => true
+  end &&
+  (* the model is non-interfering for a peer it does not trust: so must the implementation be *)
+  (trusted || (is_nil (o_leaks o) && is_nil (o_pair o))).
 
-Definition obs_eqb (a b : obs) : bool :=
-  Z.eqb (o_status a) (o_status b) && String.eqb (o_rule a) (o_rule b) &&
-  option_eqb oview_eqb (o_view a) (o_view b) && option_eqb oup_eqb (o_up a) (o_up b).
+(* ------------------------------------------------------------------ the property, on the observation *)
 
-(** url.Parse was asked about exactly one string: the first X-Forwarded-Uri value *)
-Definition oracle (c : case) : string -> option (string * string) :=
-  fun s => if String.eqb s (get XFU (k_hdrs c)) then k_uri c else None.
+Definition listed_cfgb (c : case) : bool :=
+  existsb (fun s => covers_str (o_parse_ip c) (o_parse_cidr c) s (peer_addr (o_parse_ip c) (o_split c) (r_remote (k_req c))))
+          (match (match k_mode c with Decision => cfg_decision (k_cfg c) | Proxy => cfg_proxy (k_cfg c) end) with
+           | Some l => l
+           | None => []
+           end).
 
-(** the specification's answer for the whole request *)
-Definition spec_served (parse : string -> option (string * string)) (es : list entry) (peer : ip)
-           (c : conn) (h : hdrs) : served :=
-  if listedb es peer then
-    let v := spec_view_trusted parse c h in
-    {| s_view := v; s_up_fwd := upstream_forwarded c h; s_up_method := v_method v; s_up_uri := request_uri v |}
-  else
-    {| s_view := spec_view_untrusted c h; s_up_fwd := spec_upstream_untrusted c; s_up_method := c_method c;
-       s_up_uri := c_escpath c ++ (if nonempty (c_rawquery c) then "?" ++ c_rawquery c else "") |}.
+Definition scheme_ofb (r : reqline) : string := if r_tls r then "https" else "http".
 
-(** the well-formedness the theorems assume of the net package's answers *)
-Definition wf_ipb (a : ip) : bool :=
-  Nat.eqb (length a) 0 || Nat.eqb (length a) 4 || Nat.eqb (length a) 16.
-Definition wf_entryb (e : entry) : bool :=
-  match e with
-  | EIp a => wf_ipb a
-  | ECidrErr => true
-  | ECidr a m => (Nat.eqb (length a) 4 && Nat.eqb (length m) 4) || (Nat.eqb (length a) 16 && Nat.eqb (length m) 16)
+(** not listed: only the connection and the request line *)
+Definition prop_untrusted (c : case) : bool :=
+  let r := k_req c in
+  let o := k_obs c in
+  match o_view o with
+  | Some ov =>
+    String.eqb (ov_method ov) (r_method r) && String.eqb (ov_scheme ov) (scheme_ofb r) &&
+    String.eqb (ov_host ov) (r_host r) && String.eqb (ov_rawpath ov) (r_escpath r) &&
+    String.eqb (ov_query ov) (r_rawquery r) &&
+    list_eqb String.eqb (ov_ips ov) [peer_host (o_split c) (r_remote r)] &&
+    forallb (fun kv => negb (is_forwarded_ci (fst kv))) (ov_hdrs ov)
+  | None => true
+  end &&
+  is_nil (o_leaks o) && is_nil (o_pair o).
+
+Fixpoint forallb2 {A B} (f : A -> B -> bool) (l : list A) (m : list B) : bool :=
+  match l, m with
+  | [], [] => true
+  | a :: l', b :: m' => f a b && forallb2 f l' m'
+  | _, _ => false
   end.
+
+(** the client list a trusted proxy announces, as a class: one entry per comma separated element;
+    Forwarded: nothing or the value of a for= parameter of the element; X-Forwarded-For: the element *)
+Definition announced_b (raw : raw_hdrs) (xs : list string) : bool :=
+  let xff := match hdr_ci XFF raw with
+             | Some x => if nonempty x then forallb2 (fun e y => String.eqb (trim_space e) y) (split_on "," x) xs
+                         else is_nil xs
+             | None => is_nil xs
+             end in
+  match hdr_ci FWD raw with
+  | Some f => if nonempty f then forallb2 for_class_b (split_on "," f) xs else xff
+  | None => xff
+  end.
+
+(** listed: each present, non-empty header overrides exactly its component *)
+Definition prop_trusted (c : case) : bool :=
+  let r := k_req c in
+  let raw := k_raw c in
+  match o_view (k_obs c) with
+  | Some ov =>
+    let uri := match hdr_ci XFU raw with Some v => if nonempty v then o_parse_uri c v else None | None => None end in
+    String.eqb (ov_method ov) (override (hdr_ci XFM raw) (r_method r)) &&
+    String.eqb (ov_scheme ov) (override (hdr_ci XFP raw) (scheme_ofb r)) &&
+    String.eqb (ov_host ov) (override (hdr_ci XFH raw) (r_host r)) &&
+    String.eqb (ov_rawpath ov) (override (option_map fst uri) (r_escpath r)) &&
+    String.eqb (ov_query ov) (override (option_map snd uri) (r_rawquery r)) &&
+    match rev (ov_ips ov) with
+    | last :: front => String.eqb last (peer_host (o_split c) (r_remote r)) && announced_b raw (rev front)
+    | [] => false
+    end
+  | None => true
+  end.
+
+Definition prop (c : case) : bool :=
+  (if listed_cfgb c then prop_trusted c else prop_untrusted c) &&
+  rule_fits (k_obs c) &&
+  match o_view (k_obs c) with Some ov => ov_ok ov | None => true end.
+
+(** the inputs of the repaired finding C09-F1, at the level of a case *)
+Definition guard_F1_case (c : case) : bool :=
+  guard_F1 (map (entry_of (o_parse_ip c) (o_parse_cidr c)) (configured (k_mode c) (k_cfg c)))
+           (o_parse_ip c (ip_from_host_port (o_split c) (r_remote (k_req c)))).
 
 (** [impl_fixed]: false for the pinned loader (C09-F1 open), true once fixes/C09-F1.diff is applied *)
 Definition check (impl_fixed : bool) (c : case) : verdict :=
-  let parse := oracle c in
-  {| v_corr := forallb wf_entryb (k_entries c) && wf_ipb (k_peer c) &&
-               obs_eqb (expected (k_proxy c) (serve parse impl_fixed (k_entries c) (k_peer c) (k_conn c) (k_hdrs c))) (k_obs c);
-     v_prop := obs_eqb (expected (k_proxy c) (spec_served parse (k_entries c) (k_peer c) (k_conn c) (k_hdrs c))) (k_obs c);
-     v_guards := guards [(1%Z, guard_F1 (k_entries c) (k_peer c) && negb impl_fixed)] |}.
+  {| v_corr := oracles_ok c && headers_ok c && k_loaded c && corr impl_fixed c;
+     v_prop := prop c;
+     v_guards := guards [(1%Z, guard_F1_case c && negb impl_fixed)] |}.
+
+(* BEGIN aliases (generated from harness/c09/c09_test.go c09Aliases; the driver refuses to run when the two differ) *)
+Definition q0 : string := "Forwarded".
+Definition q1 : string := "forwarded".
+Definition q2 : string := "FORWARDED".
+Definition q3 : string := "X-Forwarded-For".
+Definition q4 : string := "x-forwarded-for".
+Definition q5 : string := "X-FORWARDED-FOR".
+Definition q6 : string := "X-Forwarded-Proto".
+Definition q7 : string := "x-forwarded-proto".
+Definition q8 : string := "X-FORWARDED-PROTO".
+Definition q9 : string := "X-Forwarded-Host".
+Definition q10 : string := "x-forwarded-host".
+Definition q11 : string := "X-FORWARDED-HOST".
+Definition q12 : string := "X-Forwarded-Uri".
+Definition q13 : string := "x-forwarded-uri".
+Definition q14 : string := "X-FORWARDED-URI".
+Definition q15 : string := "X-Forwarded-Path".
+Definition q16 : string := "x-forwarded-path".
+Definition q17 : string := "X-FORWARDED-PATH".
+Definition q18 : string := "X-Forwarded-Method".
+Definition q19 : string := "x-forwarded-method".
+Definition q20 : string := "X-FORWARDED-METHOD".
+Definition q21 : string := "Cf-Connecting-Ip".
+Definition q22 : string := "cf-connecting-ip".
+Definition q23 : string := "CF-CONNECTING-IP".
+Definition q24 : string := "7.7.7.11".
+Definition q25 : string := "Forwarded-For".
+Definition q26 : string := "forwarded-for".
+Definition q27 : string := "FORWARDED-FOR".
+Definition q28 : string := "7.7.7.7".
+Definition q29 : string := "Front-End-Https".
+Definition q30 : string := "front-end-https".
+Definition q31 : string := "FRONT-END-HTTPS".
+Definition q32 : string := "on".
+Definition q33 : string := "True-Client-Ip".
+Definition q34 : string := "true-client-ip".
+Definition q35 : string := "TRUE-CLIENT-IP".
+Definition q36 : string := "7.7.7.10".
+Definition q37 : string := "Via".
+Definition q38 : string := "via".
+Definition q39 : string := "VIA".
+Definition q40 : string := "1.1 evil-via".
+Definition q41 : string := "X-Client-Ip".
+Definition q42 : string := "x-client-ip".
+Definition q43 : string := "X-CLIENT-IP".
+Definition q44 : string := "7.7.7.8".
+Definition q45 : string := "X-Cluster-Client-Ip".
+Definition q46 : string := "x-cluster-client-ip".
+Definition q47 : string := "X-CLUSTER-CLIENT-IP".
+Definition q48 : string := "7.7.7.9".
+Definition q49 : string := "X-Forwarded".
+Definition q50 : string := "x-forwarded".
+Definition q51 : string := "X-FORWARDED".
+Definition q52 : string := "for=7.7.7.7;proto=https".
+Definition q53 : string := "X-Forwarded-Port".
+Definition q54 : string := "x-forwarded-port".
+Definition q55 : string := "X-FORWARDED-PORT".
+Definition q56 : string := "8443".
+Definition q57 : string := "443".
+Definition q58 : string := "X-Forwarded-Prefix".
+Definition q59 : string := "x-forwarded-prefix".
+Definition q60 : string := "X-FORWARDED-PREFIX".
+Definition q61 : string := "/pst".
+Definition q62 : string := "/sec/a".
+Definition q63 : string := "X-Forwarded-Protocol".
+Definition q64 : string := "x-forwarded-protocol".
+Definition q65 : string := "X-FORWARDED-PROTOCOL".
+Definition q66 : string := "https".
+Definition q67 : string := "X-Forwarded-Scheme".
+Definition q68 : string := "x-forwarded-scheme".
+Definition q69 : string := "X-FORWARDED-SCHEME".
+Definition q70 : string := "X-Forwarded-Server".
+Definition q71 : string := "x-forwarded-server".
+Definition q72 : string := "X-FORWARDED-SERVER".
+Definition q73 : string := "evil-server.example.com".
+Definition q74 : string := "X-Forwarded-Ssl".
+Definition q75 : string := "x-forwarded-ssl".
+Definition q76 : string := "X-FORWARDED-SSL".
+Definition q77 : string := "X-Host".
+Definition q78 : string := "x-host".
+Definition q79 : string := "X-HOST".
+Definition q80 : string := "evil-xhost.example.com".
+Definition q81 : string := "X-Http-Method".
+Definition q82 : string := "x-http-method".
+Definition q83 : string := "X-HTTP-METHOD".
+Definition q84 : string := "POST".
+Definition q85 : string := "X-Http-Method-Override".
+Definition q86 : string := "x-http-method-override".
+Definition q87 : string := "X-HTTP-METHOD-OVERRIDE".
+Definition q88 : string := "DELETE".
+Definition q89 : string := "X-Method-Override".
+Definition q90 : string := "x-method-override".
+Definition q91 : string := "X-METHOD-OVERRIDE".
+Definition q92 : string := "X-Original-Forwarded-For".
+Definition q93 : string := "x-original-forwarded-for".
+Definition q94 : string := "X-ORIGINAL-FORWARDED-FOR".
+Definition q95 : string := "7.7.7.12".
+Definition q96 : string := "X-Original-Forwarded-Host".
+Definition q97 : string := "x-original-forwarded-host".
+Definition q98 : string := "X-ORIGINAL-FORWARDED-HOST".
+Definition q99 : string := "evil-xofh.example.com".
+Definition q100 : string := "X-Original-Host".
+Definition q101 : string := "x-original-host".
+Definition q102 : string := "X-ORIGINAL-HOST".
+Definition q103 : string := "evil-orig.example.com".
+Definition q104 : string := "X-Original-Method".
+Definition q105 : string := "x-original-method".
+Definition q106 : string := "X-ORIGINAL-METHOD".
+Definition q107 : string := "X-Original-Uri".
+Definition q108 : string := "x-original-uri".
+Definition q109 : string := "X-ORIGINAL-URI".
+Definition q110 : string := "/pst/a".
+Definition q111 : string := "X-Original-Url".
+Definition q112 : string := "x-original-url".
+Definition q113 : string := "X-ORIGINAL-URL".
+Definition q114 : string := "/pst/a?o=1".
+Definition q115 : string := "X-Real-Ip".
+Definition q116 : string := "x-real-ip".
+Definition q117 : string := "X-REAL-IP".
+Definition q118 : string := "X-Rewrite-Url".
+Definition q119 : string := "x-rewrite-url".
+Definition q120 : string := "X-REWRITE-URL".
+Definition q121 : string := "X-Scheme".
+Definition q122 : string := "x-scheme".
+Definition q123 : string := "X-SCHEME".
+Definition q124 : string := "X-Url-Scheme".
+Definition q125 : string := "x-url-scheme".
+Definition q126 : string := "X-URL-SCHEME".
+Definition q127 : string := "Host".
+Definition q128 : string := "X-Custom".
+Definition q129 : string := "x-custom".
+Definition q130 : string := "X-CUSTOM".
+Definition q131 : string := "c1".
+Definition q132 : string := "Cookie".
+Definition q133 : string := "a=b".
+Definition q134 : string := "Connection".
+Definition q135 : string := "close".
+Definition q136 : string := "Upgrade".
+Definition q137 : string := "websocket".
+Definition q138 : string := "Content-Type".
+Definition q139 : string := "Content-Length".
+Definition q140 : string := "application/json".
+Definition q141 : string := "text/plain".
+Definition q142 : string := "http".
+Definition q143 : string := "GET".
+Definition q144 : string := "PUT".
+Definition q145 : string := "PATCH".
+Definition q146 : string := "HEAD".
+Definition q147 : string := "OPTIONS".
+Definition q148 : string := "a.example.com".
+Definition q149 : string := "b.example.com:8080".
+Definition q150 : string := "heimdall.local".
+Definition q151 : string := "/pub/a".
+Definition q152 : string := "/hst/a".
+Definition q153 : string := "/any/a".
+Definition q154 : string := "/other".
+Definition q155 : string := "/x%20y".
+Definition q156 : string := "/".
+Definition q157 : string := "/pub/a/b".
+Definition q158 : string := "x=1".
+Definition q159 : string := "b=2&a=1".
+Definition q160 : string := "q=a%20b".
+Definition q161 : string := "for=1.2.3.4".
+Definition q162 : string := "for=1.2.3.4;proto=https;host=x, for=5.6.7.8".
+Definition q163 : string := "For=9.9.9.9".
+Definition q164 : string := "proto=https".
+Definition q165 : string := "for=a ; for=b ,host=h".
+Definition q166 : string := "for=".
+Definition q167 : string := ";;".
+Definition q168 : string := "by=x;for=y".
+Definition q169 : string := "for=1.1.1.1,proto=http,for=2.2.2.2".
+Definition q170 : string := "for = 1.1.1.1".
+Definition q171 : string := "FOR=1.1.1.1;for=2.2.2.2".
+Definition q172 : string := "1.1.1.1".
+Definition q173 : string := "1.1.1.1, 2.2.2.2".
+Definition q174 : string := "3.3.3.3 ,4.4.4.4".
+Definition q175 : string := "unknown".
+Definition q176 : string := ",".
+Definition q177 : string := "a,,b".
+Definition q178 : string := "2001:db8::9".
+Definition q179 : string := "ftp".
+Definition q180 : string := "HTTPS".
+Definition q181 : string := "https, http".
+Definition q182 : string := "https,http".
+Definition q183 : string := "evil.example.com".
+Definition q184 : string := "admin.example.com:443".
+Definition q185 : string := "A.example.com".
+Definition q186 : string := "evil.example.com, a.example.com".
+Definition q187 : string := "a.example.com,evil.example.com".
+Definition q188 : string := "/pst/a?x=1".
+Definition q189 : string := "/sec/a?b=2&a=1".
+Definition q190 : string := "?q=1".
+Definition q191 : string := "%zz".
+Definition q192 : string := "http://other.example.com/pst/a?z=1".
+Definition q193 : string := "//evil/path".
+Definition q194 : string := "/a b".
+Definition q195 : string := "/pub/a#frag".
+Definition q196 : string := "/any/a?x=1;y=2".
+Definition q197 : string := "any/a".
+Definition q198 : string := "/sec/a?".
+Definition q199 : string := "/hst/a?%zz=1".
+Definition q200 : string := "*".
+Definition q201 : string := "/x".
+Definition q202 : string := "get".
+Definition q203 : string := "pub".
+Definition q204 : string := "pst".
+Definition q205 : string := "sec".
+Definition q206 : string := "hst".
+Definition q207 : string := "any".
+Definition q208 : string := "root".
+Definition q209 : string := "other".
+Definition q210 : string := "status".
+Definition q211 : string := "rule".
+Definition q212 : string := "view".
+Definition q213 : string := "resp.headers".
+Definition q214 : string := "resp.body".
+Definition q215 : string := "up.line".
+Definition q216 : string := "up.host".
+Definition q217 : string := "up.headers".
+Definition q218 : string := "up.body".
+Definition q219 : string := "log.pair".
+Definition q220 : string := "log".
+(* END aliases *)
 
 (* short constructors for the generated case files *)
-Definition cn p t m h e q := {| c_peer := p; c_tls := t; c_method := m; c_host := h; c_escpath := e; c_rawquery := q |}.
+Definition rq p t m h e q := {| r_remote := p; r_tls := t; r_method := m; r_host := h; r_escpath := e; r_rawquery := q |}.
+Definition cf d p := {| cfg_decision := d; cfg_proxy := p |}.
 Definition vw m s h p q i hs ok :=
   {| ov_method := m; ov_scheme := s; ov_host := h; ov_rawpath := p; ov_query := q; ov_ips := i; ov_hdrs := hs; ov_ok := ok |}.
-Definition upv m u hs := {| ou_method := m; ou_uri := u; ou_hdrs := hs |}.
-Definition ob s r v u := {| o_status := s; o_rule := r; o_view := v; o_up := u |}.
-Definition cs p es peer c h u o :=
-  {| k_proxy := p; k_entries := es; k_peer := peer; k_conn := c; k_hdrs := h; k_uri := u; k_obs := o |}.
+Definition upv m hs := {| ou_method := m; ou_hdrs := hs |}.
+Definition ob s r v u l p := {| o_status := s; o_rule := r; o_view := v; o_up := u; o_leaks := l; o_pair := p |}.
+Definition cs m cfg ld net sp r raw parsed u o :=
+  {| k_mode := m; k_cfg := cfg; k_loaded := ld; k_net := net; k_split := sp; k_req := r; k_raw := raw;
+     k_parsed := parsed; k_uri := u; k_obs := o |}.
